@@ -450,24 +450,29 @@ randombytes_internal_random_stir(void)
          if (randombytes_getentropy(stream.key, sizeof stream.key) != 0) {
              sodium_misuse(); /* LCOV_EXCL_LINE */
          }
-     }
+     } else
 # elif defined(HAVE_LINUX_COMPATIBLE_GETRANDOM)
      if (global.getrandom_available != 0) {
          if (randombytes_linux_getrandom(stream.key, sizeof stream.key) != 0) {
              sodium_misuse(); /* LCOV_EXCL_LINE */
          }
-     }
-# elif defined(NONEXISTENT_DEV_RANDOM) && defined(HAVE_SAFE_ARC4RANDOM)
-    arc4random_buf(stream.key, sizeof stream.key);
-# elif !defined(NONEXISTENT_DEV_RANDOM)
-    if (global.random_data_source_fd == -1 ||
-        safe_read(global.random_data_source_fd, stream.key,
-                  sizeof stream.key) != (ssize_t) sizeof stream.key) {
-        sodium_misuse(); /* LCOV_EXCL_LINE */
-    }
-# else
-    sodium_misuse();
+     } else
 # endif
+     /* the system call is not compiled in, or not available at run time:
+      * randombytes_internal_random_init() fell back to the random device */
+     {
+# if defined(NONEXISTENT_DEV_RANDOM) && defined(HAVE_SAFE_ARC4RANDOM)
+         arc4random_buf(stream.key, sizeof stream.key);
+# elif !defined(NONEXISTENT_DEV_RANDOM)
+         if (global.random_data_source_fd == -1 ||
+             safe_read(global.random_data_source_fd, stream.key,
+                       sizeof stream.key) != (ssize_t) sizeof stream.key) {
+             sodium_misuse(); /* LCOV_EXCL_LINE */
+         }
+# else
+         sodium_misuse();
+# endif
+     }
 
 #else /* _WIN32 */
     if (! RtlGenRandom((PVOID) stream.key, (ULONG) sizeof stream.key)) {
